@@ -213,6 +213,9 @@ PROPS["C14"] = {
     "assumptions": [],
 }
 
+PROPS["C14"]["components"].append(Seq("consumers", 300, 12000, proj_model=circuit_proj(["cons"]), proj_spec=circuit_proj(["cons"]), label="consumers-conservation"))
+PROPS["C14"]["rule"] += " consumers (sequential): on every stats read each of the ten rolling counters the collectors own must have rolling sum = sum of its buckets, within [0, total] (counters that share storage fail this)."
+
 PROPS["C11"] = {
     "components": [Sched("cfg", 4000, 150000, only="C11:", pb1=((40, 1500), (400, 40000))), Sched("diag", 1500, 60000), Seq("consumers", 400, 20000, label="diag", crash_is_violation=True), RaceRun(),
                    CircuitSeq("C11", ["res:libpanic"], 1500, 60000)],
